@@ -1,5 +1,4 @@
-import Verif.Base.Pack
-import Verif.Spec.HtmlRefs
+import Verif.Spec.TableChecks
 import Verif.Gen.EntitiesHtml
 /-!
 # C17 — the whole-table check of `html.EntitiesMap` (the one expensive kernel evaluation, ≈ 50 s)
@@ -8,35 +7,9 @@ Kept in its own module so that `lake` checks it in parallel with `Proofs/C17Tabl
 `Props/C17.lean` turns `entities_html_all` into the quantified statements.
 -/
 namespace Verif.Proofs.C17
-open Verif Verif.Gen Verif.Spec.HtmlRefs
+open Verif Verif.Gen Verif.Spec.TableChecks
 
 set_option maxRecDepth 1000000
-
-/-- source of the reference `&name;` -/
-def refOf (name : Nat) : List Nat := cAmp :: (unpack name ++ [cSemi])
-
-/-- `(& [#0-9A-Za-z]+ ;)+` — a sequence of `;`-terminated references (first argument: "at a boundary") -/
-def refSeqShape : Bool → List Nat → Bool
-  | atBoundary, [] => atBoundary
-  | atBoundary, c :: r =>
-    if c = cAmp then atBoundary && refSeqShape false r
-    else if c = cSemi then !atBoundary && refSeqShape true r
-    else !atBoundary && (c = cHash || isAlnum c) && refSeqShape false r
-
-/-- a replacement is *self-contained*: a single character (the lone `&` is only written by
-    `parse.replaceEntities` when the next character cannot continue a reference; `<` is covered by
-    `textrev_html_covers_lt`), or a sequence of `;`-terminated references that the decoder consumes completely
-    (nothing of it is left as a literal `&`).  Such a string decodes the same whatever follows it. -/
-def selfContained (repl : List Nat) : Bool :=
-  match repl with
-  | [_] => true
-  | _ => refSeqShape true repl && !(decodeCps .text repl).contains cAmp && !(decodeCps .attr repl).contains cAmp
-
-def entityRowOk (row : Nat × Nat) : Bool :=
-  let ref := refOf row.1
-  let repl := unpack row.2
-  decodeCps .text repl == decodeCps .text ref && decodeCps .attr repl == decodeCps .attr ref &&
-  decide (repl.length ≤ ref.length) && selfContained repl
 
 theorem entities_html_all : EntitiesHtml.table.all entityRowOk = true := by decide +kernel
 
